@@ -179,6 +179,21 @@ def typical_terms(years, shift=None, sec=None):
     return out
 
 
+def with_lengths(months, lengths):
+    """copy of a scenario month list in which the months keyed (year, month) get the given lengths (28..31) and all later months shift accordingly"""
+    out = []
+    shift = 0
+    for r in months:
+        r = dict(r)
+        r['first'] += shift
+        k = (r['year'], r['month'])
+        if k in lengths:
+            shift += lengths[k] - r['count']
+            r['count'] = lengths[k]
+        out.append(r)
+    return out
+
+
 def synthetic_months(first_year, new_year_jdn, n_years=2, leap=None, prev_months=3, auto_leap=True):
     """alternating 30/29-day months; new_year_jdn = JDN of month 1 day 1 of first_year; leap = {year: month}"""
     leap = leap or {}
